@@ -88,6 +88,57 @@ def clone(o, how):
         return None
 
 
+CARRY_PROG = r"""
+import base64, json, pickle, sys
+import cvss
+C = {"2": cvss.CVSS2, "3": cvss.CVSS3, "4": cvss.CVSS4}
+out = []
+for ver, s, warm in json.load(sys.stdin):
+    try:
+        o = C[ver](s)
+        for w in warm:
+            if w == "hash": hash(o)
+            elif w == "eq": o == C[ver](s)
+            elif w == "clean": o.clean_vector()
+            elif w == "rh": o.rh_vector()
+            elif w == "json": o.as_json(sort=True, minimal=True)
+            elif w == "scores": (o.scores(), o.severities())
+            elif w == "set": len({o, C[ver](s)})
+        out.append([base64.b64encode(pickle.dumps(o, p)).decode("ascii") for p in (0, 2, pickle.HIGHEST_PROTOCOL)])
+    except Exception as e:
+        out.append(None)
+sys.stdout.write(json.dumps(out))
+"""
+
+
+def carried(items, hashseed):
+    """
+    objects that were built and used in ANOTHER process (its own string-hash salt: PYTHONHASHSEED=<hashseed>) and arrive here
+    as pickles - what a task queue, a cache server or multiprocessing does.  items: [(ver, string, [warm-up calls])].
+    -> for every item a list of objects (one per pickle protocol), or None when the object cannot be pickled there
+    """
+    import base64
+    import json
+    import os
+    import pickle
+    import subprocess
+    import sys
+    env = dict(os.environ, PYTHONHASHSEED=str(hashseed), PYTHONPATH=os.environ.get("VERIF_REPO", "/repo"), PYTHONDONTWRITEBYTECODE="1")
+    p = subprocess.run([sys.executable, "-c", CARRY_PROG], input=json.dumps(items).encode("utf-8"), stdout=subprocess.PIPE, stderr=subprocess.PIPE, env=env)
+    if p.returncode != 0:
+        return [None] * len(items)
+    out = []
+    for blobs in json.loads(p.stdout.decode("utf-8")):
+        if blobs is None:
+            out.append(None)
+            continue
+        try:
+            out.append([pickle.loads(base64.b64decode(b)) for b in blobs])
+        except Exception:  # noqa  (no statement promises that objects can be pickled)
+            out.append(None)
+    return out
+
+
 _SUB = {}
 
 
